@@ -203,10 +203,19 @@ def hyp_search(ctx, strategy, body, max_examples, label='', shrink=True):
                 raise Violation(holder['msg'], holder['clause'])
             raise
 
+    from hypothesis.errors import Flaky
     try:
         test()
     except Violation:
         ctx.violation(holder['case'], holder['msg'], holder['clause'])
+        return False
+    except Flaky:
+        # the oracle failed for a generated case but not on every re-execution while shrinking (time-dependent
+        # clause): the failure that was observed is reported with the case that produced it
+        if 'case' not in holder:
+            raise
+        ctx.violation(holder['case'], holder['msg'] + '\n(not reproduced on every re-execution while shrinking)',
+                      holder['clause'])
         return False
     return True
 
